@@ -539,6 +539,8 @@ theorem setArg_exact {d : Doc} {F : Forest} {l : Loc} {a : Arg} (w : WFG d F) (h
       rw [saveString_new hf] at hal
       split at hal
       · simp only [Prod.mk.injEq, true_and] at hal; subst hal; rfl
+      split at hal
+      · simp only [Prod.mk.injEq, true_and] at hal; subst hal; rfl
       · simp at hal
   cases a with
   | null => exact he
